@@ -127,9 +127,83 @@ pub fn eval_sampler(dc: &Decaf, which: usize, script: &[u64]) -> Outcome {
     }
 }
 
+/// Deserialisation modes the crate declares `unimplemented!()` (Compress::No, Validate::No): a
+/// panic or an error hands out nothing and is fine; but IF a mode returns a value, that value
+/// must be a valid group element like any other constructor's output.
+pub const ALT_MODES: [&str; 6] = [
+    "Element::deserialize_compressed_unchecked", "Element::deserialize_uncompressed", "Element::deserialize_uncompressed_unchecked",
+    "AffinePoint::deserialize_compressed_unchecked", "AffinePoint::deserialize_uncompressed", "AffinePoint::deserialize_uncompressed_unchecked",
+];
+pub fn eval_alt_mode(dc: &Decaf, which: usize, bytes: &[u8]) -> Outcome {
+    use ark_serialize::CanonicalDeserialize;
+    let f = dc.f();
+    let res: Result<Option<(BigUint, BigUint)>, String> = guarded(|| {
+        let el = |e: Element| -> Option<(BigUint, BigUint)> {
+            let cb = coords_big(&el_coords(&e));
+            let zi = f.inv(&cb[2])?;
+            Some((f.mul(&cb[0], &zi), f.mul(&cb[1], &zi)))
+        };
+        let af = |a: Affine| -> Option<(BigUint, BigUint)> {
+            let c = af_coords(&a);
+            Some((BigUint::from_bytes_le(&c[0]), BigUint::from_bytes_le(&c[1])))
+        };
+        match which {
+            0 => Element::deserialize_compressed_unchecked(bytes).ok().map(|e| el(e).unwrap_or((u(0), u(0)))),
+            1 => Element::deserialize_uncompressed(bytes).ok().map(|e| el(e).unwrap_or((u(0), u(0)))),
+            2 => Element::deserialize_uncompressed_unchecked(bytes).ok().map(|e| el(e).unwrap_or((u(0), u(0)))),
+            3 => Affine::deserialize_compressed_unchecked(bytes).ok().and_then(af),
+            4 => Affine::deserialize_uncompressed(bytes).ok().and_then(af),
+            _ => Affine::deserialize_uncompressed_unchecked(bytes).ok().and_then(af),
+        }
+    });
+    match res {
+        Err(_) => Outcome::trivial(format!("{}/panics (declared unimplemented)", ALT_MODES[which])),
+        Ok(None) => Outcome::trivial(format!("{}/Err", ALT_MODES[which])),
+        Ok(Some((x, y))) => {
+            let class = format!("{}/returns-a-value", ALT_MODES[which]);
+            match valid_affine(dc, &x, &y) {
+                Ok(()) => Outcome::ok(class),
+                Err(why) => Outcome::bad(class, Viol { key: format!("C06|{}|invalid element", ALT_MODES[which]), engine: "E3/C06-altmode".into(), case: json!({"mode": ALT_MODES[which], "bytes": hex::encode(bytes)}), expected: "panic / Err, or a valid decaf377 element".into(), got: format!("({x}, {y}): {why}") }),
+            }
+        }
+    }
+}
+
 pub fn run(ctx: &Arc<Ctx>) {
     let dc = Decaf::new();
     let q = dc.f().p.clone();
+    // ---- alternative deserialisation modes on crafted inputs
+    {
+        let f = dc.f();
+        let g = dc.generator();
+        let i = f.sqrt(&f.neg(&u(1))).unwrap();
+        let o4 = Pt { x: i.clone(), y: u(0) };
+        let outside = dc.c.add(&g, &o4);
+        let pts: Vec<Pt> = vec![g.clone(), dc.c.identity(), dc.c.torsion2(), o4.clone(), outside.clone(), dc.c.add(&outside, &g), Pt { x: u(1), y: u(1) }, Pt { x: u(0), y: u(0) }, dc.c.other_rep(&g)];
+        let mut inputs: Vec<Vec<u8>> = vec![];
+        for p in &pts {
+            // x||y, y||x, and y with the sign-of-x flag (the arkworks compressed Edwards form)
+            inputs.push([to32(&p.x), to32(&p.y)].concat());
+            inputs.push([to32(&p.y), to32(&p.x)].concat());
+            let mut yb = to32(&p.y);
+            inputs.push(yb.to_vec());
+            yb[31] |= 0x80;
+            inputs.push(yb.to_vec());
+            if let Ok(e) = dc.encode_spec_bytes(p) {
+                inputs.push(e.to_vec());
+                inputs.push([e, [0u8; 32]].concat());
+            }
+        }
+        for len in [0usize, 31, 32, 33, 63, 64, 65, 96] {
+            inputs.push(vec![0u8; len]);
+            inputs.push(vec![0xffu8; len]);
+        }
+        inputs.push(to32(&(&q - 1u32)).to_vec());
+        inputs.sort();
+        inputs.dedup();
+        let n = inputs.len();
+        run_cases(ctx, "E3/C06-altmode", false, (0..n * 6).into_par_iter().map(|i| (i % 6, i / 6)), |&(w, i)| eval_alt_mode(&dc, w, &inputs[i]), |&(w, i)| (format!("altmode|{}", ALT_MODES[w]), json!({"mode": ALT_MODES[w], "bytes": hex::encode(&inputs[i])})));
+    }
     // ---- from_random_bytes
     let mut strings: Vec<Vec<u8>> = vec![];
     for len in 0..=64usize {
@@ -201,7 +275,10 @@ pub fn run(ctx: &Arc<Ctx>) {
 
 pub fn replay(case: &Value) -> (bool, Value) {
     let dc = Decaf::new();
-    let o = if case["bytes"].is_string() {
+    let o = if case["mode"].is_string() {
+        let w = ALT_MODES.iter().position(|m| Some(*m) == case["mode"].as_str()).unwrap_or(0);
+        eval_alt_mode(&dc, w, &hex::decode(case["bytes"].as_str().unwrap_or("")).unwrap_or_default())
+    } else if case["bytes"].is_string() {
         eval_frb(&dc, &hex::decode(case["bytes"].as_str().unwrap()).unwrap_or_default())
     } else {
         let script: Vec<u64> = case["script"].as_array().map(|a| a.iter().filter_map(|x| x.as_str()?.parse().ok()).collect()).unwrap_or_default();
